@@ -199,6 +199,9 @@ func checkC01(w *World, r *Report) {
 	r.Rule("R01.7", "no implementation-dependent float→integer conversion on a value path: every conversion of a float64 to an integer type in package xpath is bounded on both sides by comparisons that hold on the path, or is a reviewed site", 1)
 	r.guard("R01.7", func() { c01FloatToInt(w, r) })
 
+	r.Rule("R01.8", "byte offsets and character counts are never mixed: in package xpath no addition, subtraction or comparison combines a byte quantity (strings.Index*, len(string)) with a character quantity (RuneCountInString, len([]rune)), no string is sliced by a character quantity and no []rune by a byte quantity", 1)
+	r.guard("R01.8", func() { c01Units(w, r) })
+
 	r.Rule("R01.6", "result accessors: GetBoolResult/GetNumResult/GetLiteralResult return the run error first, then 'no result', then convert with Boolean/Number/Literal respectively", 3)
 	r.guard("R01.6", func() { resultAccessors(w, r, "R01.6") })
 }
